@@ -564,7 +564,10 @@ class Builder:
             elif k == 'bin':
                 a, b = vals[n['a']], vals[n['b']]
                 op = n['op']
-                if op in _PYINFIX:
+                if n.get('fn'):
+                    from sc3.base import builtins as bi
+                    v = getattr(bi, op)(a, b)
+                elif op in _PYINFIX:
                     v = _PYINFIX[op](a, b)
                 else:
                     v = getattr(a, op)(b)
